@@ -29,6 +29,12 @@
 //! ancestor-or-self of y; absent addresses (right id / wrong max cut ±1, unknown id / right
 //! max cut, flushed-but-uncommitted command) are not found.
 //!
+//! Multi-command init segments: graphs created from an init perspective holding 2..4 commands
+//! (through `ClientState::new_graph` with a multi-publish action, and through new_perspective +
+//! add_command + new_storage) × every DAG extension by ≤ 2 (thorough 3) commands × commit-point
+//! subsets, with the full oracle (plus `get_head_address` and the head set's max cuts) right
+//! after creation and after every further commit.
+//!
 //! Fault family: the same delivery on the harness's capturing in-memory `IoManager`, with the
 //! k-th backend `Write::commit` failing once with an I/O error, for every k ≥ 1 (k = 0 is the
 //! graph creation) over all DAGs n ≤ 5 (thorough 6) × commit-point subsets.  On the SAME storage
@@ -44,12 +50,12 @@ use std::{
 
 use aranya_runtime::{
     storage::linear::{libc::FileManager, testing::MemStorageProvider, LinearStorageProvider},
-    Address, ClientState, CmdId, Command, GraphId, Location, MaxCut, MemSpill, Prior, Priority, RuntimeBuffers, Segment, Storage, StorageProvider, TraversalBuffer,
+    Address, ClientState, CmdId, Command, GraphId, Location, MaxCut, MemSpill, Perspective, PolicyId, Prior, Priority, RuntimeBuffers, Segment, Storage, StorageProvider, TraversalBuffer,
 };
 use mcx::{json, rayon::prelude::*, Args, Level, Report, Value};
 
 use crate::{
-    policy::{ScriptStore, VecSink},
+    policy::{derived_id, Action, ScriptStore, VecSink},
     store::{cmd_id, hash128, CapIo, TestCmd},
 };
 
@@ -60,6 +66,12 @@ pub struct Graph {
     /// commit after delivering node i
     pub commit_after: Vec<bool>,
     pub label: String,
+    /// number of commands in the init perspective the graph is created from (nodes 0..init_len
+    /// form a chain); 1 for every family delivered through transactions only
+    pub init_len: usize,
+    /// created through `ClientState::new_graph` with a multi-publish action (ids are then the
+    /// scripted policy's derived ids) instead of new_perspective + add_command + new_storage
+    pub via_new_graph: bool,
 }
 
 impl Graph {
@@ -84,6 +96,16 @@ impl Graph {
         a
     }
     fn id(&self, i: usize) -> CmdId {
+        if self.via_new_graph && i < self.init_len {
+            // the ids the scripted policy gives to the commands an action publishes
+            let mut parent = Prior::None;
+            let mut id = derived_id(0x30, 0, 0, &parent);
+            for j in 1..=i {
+                parent = Prior::Single(Address { id, max_cut: MaxCut::new(j as u64 - 1) });
+                id = derived_id(0x30, 0, j, &parent);
+            }
+            return id;
+        }
         cmd_id(3, i as u64)
     }
     fn cmd(&self, i: usize, mc: &[u64]) -> TestCmd {
@@ -100,7 +122,7 @@ impl Graph {
         TestCmd { id: self.id(i), parent, prio, data: Vec::new() }
     }
     fn replay_json(&self) -> Value {
-        json!({"label": self.label, "parents": self.parents, "commit_after": self.commit_after})
+        json!({"label": self.label, "parents": self.parents, "commit_after": self.commit_after, "init_len": self.init_len, "via_new_graph": self.via_new_graph})
     }
 }
 
@@ -126,6 +148,8 @@ struct Stats {
     fault_fired: AtomicU64,
     fault_uncommitted_probes: AtomicU64,
     fault_multi_head_failed: AtomicU64,
+    multi_init_graphs: AtomicU64,
+    multi_init_stages: AtomicU64,
 }
 
 thread_local! {
@@ -365,6 +389,19 @@ fn verify_subset<S: Storage>(storage: &S, g: &Graph, mc: &[u64], anc: &[u128], i
         return Err(format!("[{tag}] get_heads() = {:?} but the frontier of the last successful commit is {:?}", got_heads.iter().map(|i| (0..n).find(|&x| g.id(x) == *i)).collect::<Vec<_>>(), want_heads.iter().map(|i| (0..n).find(|&x| g.id(x) == *i)).collect::<Vec<_>>()));
     }
     let addr = |x: usize| Address { id: g.id(x), max_cut: MaxCut::new(mc[x]) };
+    for h in heads.iter() {
+        let x = (0..n).find(|&x| g.id(x) == h.id).unwrap();
+        if h.max_cut.get() != mc[x] {
+            return Err(format!("[{tag}] the committed head set locates head command {x} at max cut {}, its max cut is {}", h.max_cut, mc[x]));
+        }
+    }
+    if want_heads.len() == 1 {
+        let x = (0..n).find(|&x| want_heads.contains(&g.id(x))).unwrap();
+        let got = storage.get_head_address().map_err(|e| format!("[{tag}] get_head_address: {e:?}"))?;
+        if got != addr(x) {
+            return Err(format!("[{tag}] get_head_address() = (max cut {}) but the sole head is command {x} at max cut {}", got.max_cut, mc[x]));
+        }
+    }
     let mut loc: Vec<Option<Location>> = vec![None; n];
     for x in 0..n {
         st.lookups.fetch_add(1, Relaxed);
@@ -492,6 +529,124 @@ fn run_fault(g: &Graph, fail_at: u64, st: &Stats) -> Result<bool, String> {
 }
 
 // ---------------------------------------------------------------------------------------------
+// graphs created from an init perspective that holds several commands
+
+/// Create the graph from an init perspective holding nodes 0..init_len (through
+/// `ClientState::new_graph` with a multi-publish action, or through new_perspective +
+/// add_command + new_storage), ask every question right after creation, then deliver the rest
+/// through transactions and ask again after every commit.
+fn check_multi_init(g: &Graph, st: &Stats) -> Result<(), String> {
+    let tag = if g.via_new_graph { "mem/new_graph" } else { "mem/new_storage" };
+    let n = g.n();
+    let k = g.init_len;
+    let mc = g.max_cuts();
+    let anc = g.ancestors();
+    let mut client = ClientState::new(ScriptStore, MemStorageProvider::default());
+    let mut sink = VecSink::default();
+    let gid = if g.via_new_graph {
+        let a = Action { tag: 0x30, seq: 0, cmds: vec![vec![]; k] };
+        client.new_graph(b"p", &a, &mut sink).map_err(|e| format!("[{tag}] new_graph failed: {e:?}"))?
+    } else {
+        let sp = client.provider();
+        let mut p = sp.new_perspective(PolicyId::new(0));
+        for i in 0..k {
+            p.add_command(&g.cmd(i, &mc)).map_err(|e| format!("[{tag}] add_command({i}) failed: {e:?}"))?;
+        }
+        sp.new_storage(p).map_err(|e| format!("[{tag}] new_storage failed: {e:?}"))?.0
+    };
+    if gid != GraphId::transmute(g.id(0)) {
+        return Err(format!("[{tag}] the graph id is not the id of the init command"));
+    }
+    st.multi_init_graphs.fetch_add(1, Relaxed);
+    let stage = |client: &mut ClientState<ScriptStore, MemStorageProvider>, upto: usize, what: &str| -> Result<(), String> {
+        st.multi_init_stages.fetch_add(1, Relaxed);
+        let in_s: Vec<bool> = (0..n).map(|x| x < upto).collect();
+        let storage = client.provider().get_storage(gid).map_err(|e| format!("[{tag}] get_storage: {e:?}"))?;
+        verify_subset(&*storage, g, &mc, &anc, &in_s, &in_s, st, tag).map_err(|e| format!("{what}: {e}"))
+    };
+    stage(&mut client, k, &format!("right after creating the graph from {k} commands"))?;
+    BUFS_MEM.with(|b| -> Result<(), String> {
+        let mut b = b.borrow_mut();
+        let bufs = b.get_or_insert_with(|| Box::new(RuntimeBuffers::new()));
+        let mut trx = client.transaction(gid);
+        for i in k..n {
+            let added = client.add_commands(&mut trx, &mut sink, &[g.cmd(i, &mc)], bufs, MemSpill::new).map_err(|e| format!("[{tag}] add_commands(command {i}) failed: {e:?}"))?;
+            if added != 1 {
+                return Err(format!("[{tag}] add_commands(command {i}) added {added} commands"));
+            }
+            if g.commit_after[i] || i + 1 == n {
+                client.commit(trx, &mut sink, bufs, MemSpill::new).map_err(|e| format!("[{tag}] commit after command {i} failed: {e:?}"))?;
+                trx = client.transaction(gid);
+                stage(&mut client, i + 1, &format!("after the commit following command {i}"))?;
+            }
+        }
+        Ok(())
+    })
+}
+
+fn run_multi_init(g: &Graph, st: &Stats) -> Result<(), String> {
+    match mcx::catch(|| check_multi_init(g, st)) {
+        Ok(r) => r,
+        Err(p) => Err(format!("panic: {p} at {}", mcx::last_panic_location())),
+    }
+}
+
+/// Init segments of 2..=4 commands × every DAG extension by ≤ `extra` commands (single parent =
+/// any earlier command, merge = two incomparable earlier commands) × commit-point subsets of the
+/// extension × both creation paths.
+fn multi_init_family(extra: usize) -> Vec<Graph> {
+    fn rec(target: usize, parents: &mut Vec<Vec<usize>>, anc: &mut Vec<u128>, out: &mut Vec<Vec<Vec<usize>>>) {
+        let i = parents.len();
+        if i == target {
+            out.push(parents.clone());
+            return;
+        }
+        for p in 0..i {
+            parents.push(vec![p]);
+            anc.push(anc[p] | (1 << p));
+            rec(target, parents, anc, out);
+            parents.pop();
+            anc.pop();
+        }
+        for p in 0..i {
+            for q in p + 1..i {
+                if anc[q] & (1 << p) == 0 && anc[p] & (1 << q) == 0 {
+                    parents.push(vec![p, q]);
+                    anc.push(anc[p] | anc[q] | (1 << p) | (1 << q));
+                    rec(target, parents, anc, out);
+                    parents.pop();
+                    anc.pop();
+                }
+            }
+        }
+    }
+    let mut out = Vec::new();
+    for k in 2..=4usize {
+        for e in 0..=extra {
+            let mut parents: Vec<Vec<usize>> = (0..k).map(|i| if i == 0 { vec![] } else { vec![i - 1] }).collect();
+            let mut anc: Vec<u128> = (0..k).map(|i| (1u128 << i) - 1).collect();
+            let mut dags = Vec::new();
+            rec(k + e, &mut parents, &mut anc, &mut dags);
+            for (di, parents) in dags.into_iter().enumerate() {
+                let free = e.saturating_sub(1);
+                for mask in 0..(1u32 << free) {
+                    let mut commit_after = vec![false; k + e];
+                    commit_after[k - 1] = true;
+                    for j in 0..free {
+                        commit_after[k + j] = mask & (1 << j) != 0;
+                    }
+                    commit_after[k + e - 1] = true;
+                    for via_new_graph in [false, true] {
+                        out.push(Graph { parents: parents.clone(), commit_after: commit_after.clone(), label: format!("init segment of {k} commands + {e} more #{di} commits={mask:b} via {}", if via_new_graph { "new_graph" } else { "new_storage" }), init_len: k, via_new_graph });
+                    }
+                }
+            }
+        }
+    }
+    out
+}
+
+// ---------------------------------------------------------------------------------------------
 // graph families
 
 /// Commit pattern producing segments of the given sizes along delivery order.
@@ -566,7 +721,7 @@ fn chain_with(n: usize, feats: &[(usize, usize, Option<usize>)], sizes: &[usize]
     if total > 120 {
         return None;
     }
-    Some(Graph { commit_after: commits_for(total, sizes), parents, label })
+    Some(Graph { commit_after: commits_for(total, sizes), parents, label, init_len: 1, via_new_graph: false })
 }
 
 fn depth_classes(n: usize) -> Vec<usize> {
@@ -684,7 +839,7 @@ fn dag_family(max_n: usize) -> Vec<Graph> {
                     commit_after[k + 1] = mask & (1 << k) != 0;
                 }
                 commit_after[n - 1] = true;
-                out.push(Graph { parents: parents.clone(), commit_after, label: format!("dag n={n} #{di} commits={mask:b}") });
+                out.push(Graph { parents: parents.clone(), commit_after, label: format!("dag n={n} #{di} commits={mask:b}"), init_len: 1, via_new_graph: false });
             }
         }
     }
@@ -740,6 +895,19 @@ pub fn run(args: &Args) {
         }
         fam_json.push(json!({"family": name, "graphs": graphs.len(), "checked": done, "file_manager": with_file}));
     }
+    // graphs whose init segment holds several commands
+    let mi = multi_init_family(if quick { 2 } else { 3 });
+    let mouts: Vec<Result<(), String>> = mi.par_iter().map(|g| run_multi_init(g, &stats)).collect();
+    for (g, r) in mi.iter().zip(mouts) {
+        if let Err(text) = r {
+            rep.outcome("violation", 1);
+            rep.violation(format!("{} parents={:?} commits={:?}", g.label, g.parents, g.commit_after.iter().map(|&b| b as u8).collect::<Vec<_>>()), text, g.replay_json());
+        }
+    }
+    if let Some(g) = mi.iter().find(|g| g.init_len == 3 && g.n() == 5 && g.parents.iter().any(|p| p.len() == 2)) {
+        rep.sample(json!({"graph": g.label, "parents": g.parents, "commit_after": g.commit_after, "init_len": g.init_len}));
+    }
+    fam_json.push(json!({"family": "init segment of 2..4 commands (new_graph multi-publish action / new_storage) + every DAG extension, queried after creation and after every commit", "graphs": mi.len(), "query_stages": stats.multi_init_stages.load(Relaxed)}));
     // fault family: every backend commit index >= 1 fails once (index 0 is the graph creation)
     let fault_graphs = dag_family(if quick { 5 } else { 6 });
     let cases: Vec<(usize, u64)> = fault_graphs.iter().enumerate().flat_map(|(gi, g)| (1..=g.n() as u64 + 1).map(move |k| (gi, k))).collect();
@@ -755,7 +923,7 @@ pub fn run(args: &Args) {
     drop(scratch);
     rep.count("states", sigs.len() as u64);
     rep.count("transitions", stats.lookups.load(Relaxed) + stats.ancestry.load(Relaxed) + stats.lookups_from.load(Relaxed) + stats.absent.load(Relaxed) + stats.uncommitted_probe.load(Relaxed));
-    rep.count("traces_validated_against_impl", stats.graphs.load(Relaxed) + stats.fault_fired.load(Relaxed));
+    rep.count("traces_validated_against_impl", stats.graphs.load(Relaxed) + stats.fault_fired.load(Relaxed) + stats.multi_init_graphs.load(Relaxed));
     rep.set("families", Value::Array(fam_json));
     rep.set("exhaustive", !cap);
     if cap {
@@ -776,6 +944,8 @@ pub fn run(args: &Args) {
         ("merge_segments", stats.merge_segments.load(Relaxed)),
         ("merge_segments_with_lca_10_or_more_below", stats.merge_lca_far.load(Relaxed)),
         ("multi_head_graphs", stats.multi_head_graphs.load(Relaxed)),
+        ("multi_command_init_graphs", stats.multi_init_graphs.load(Relaxed)),
+        ("multi_command_init_query_stages", stats.multi_init_stages.load(Relaxed)),
         ("failed_commit_runs_with_fault_fired", stats.fault_fired.load(Relaxed)),
         ("failed_commit_uncommitted_commands_probed", stats.fault_uncommitted_probes.load(Relaxed)),
         ("failed_commit_with_several_written_heads", stats.fault_multi_head_failed.load(Relaxed)),
@@ -799,8 +969,20 @@ fn replay(args: &Args, path: &std::path::Path) -> ! {
     let r = &v["replay"];
     let parents: Vec<Vec<usize>> = r["parents"].as_array().unwrap_or_else(|| mcx::machinery_error("replay: parents")).iter().map(|p| p.as_array().unwrap().iter().map(|x| x.as_u64().unwrap() as usize).collect()).collect();
     let commit_after: Vec<bool> = r["commit_after"].as_array().unwrap_or_else(|| mcx::machinery_error("replay: commit_after")).iter().map(|b| b.as_bool().unwrap()).collect();
-    let g = Graph { parents, commit_after, label: r["label"].as_str().unwrap_or("").to_string() };
+    let g = Graph { parents, commit_after, label: r["label"].as_str().unwrap_or("").to_string(), init_len: r["init_len"].as_u64().unwrap_or(1) as usize, via_new_graph: r["via_new_graph"].as_bool().unwrap_or(false) };
     let stats = Stats::default();
+    if g.init_len > 1 {
+        match run_multi_init(&g, &stats) {
+            Ok(()) => {
+                println!("replay: no violation ({})", g.label);
+                std::process::exit(0)
+            }
+            Err(e) => {
+                println!("VIOLATION property={} replay={}\n  {e}", args.prop, path.display());
+                std::process::exit(1)
+            }
+        }
+    }
     if let Some(k) = r["fail_commit"].as_u64() {
         match run_fault(&g, k, &stats) {
             Ok(f) => {
